@@ -21,8 +21,10 @@ EXTENDS Naturals, FiniteSets, Sequences, TLC
 CONSTANTS N, MaxCmd, MaxVar, NCtx, HookKinds,
           Nesting,     \* BOOLEAN: stages may belong to an included pipeline (graph 1) and outer stages may include it
           TaskAllow,   \* BOOLEAN: tasks may carry allow_failure themselves (besides the stage-level flag)
-          AtomicLaunch \* BOOLEAN: a loop moves a stage from Waiting to Running in one atomic step (compare-and-swap);
+          AtomicLaunch, \* BOOLEAN: a loop moves a stage from Waiting to Running in one atomic step (compare-and-swap);
                        \*   FALSE transcribes the code before the repair: the status is read, then written
+          ErrFirst     \* BOOLEAN: a failing stage records the graph's error BEFORE it stores its Error status;
+                       \*   FALSE transcribes the code before the repair cc0baab: the status first, the error after
 Stages == 1..N
 Ctxs == 1..NCtx
 Classes == {"OK", "FAIL", "FAILA", "CFALSE"}
@@ -108,10 +110,11 @@ StageEnter(s) == /\ gpc[s] = "launched" /\ gpc' = [gpc EXCEPT ![s] = "inrun"]
                  /\ UNCHANGED <<cfgv, status, gerr, loop, want, twice, by, rpc, pt, role, done, rfail, ran, upst, dn>>
 \* the nested Schedule of including stage i returns: every stage of the included pipeline is terminal
 \* and the stage goroutines THIS call launched have finished (its own WaitGroup)
+\* (it returns the graph's LastError as it is at that moment)
 NReturn(i) == /\ inc[i] /\ nl[i] = "loop"
               /\ \A s \in Inner : status[s] \notin {"W", "R"} /\ (by[s] = i => gpc[s] \in {"none", "fin"})
-              /\ nl' = [nl EXCEPT ![i] = "ret"]
-              /\ UNCHANGED <<cfgv, status, gerr, loop, want, twice, by, gpc, rpc, pt, role, done, rfail, ran, upst, dn>>
+              /\ nl' = [nl EXCEPT ![i] = "ret"] /\ rfail' = [rfail EXCEPT ![i] = gerr[1]]
+              /\ UNCHANGED <<cfgv, status, gerr, loop, want, twice, by, gpc, rpc, pt, role, done, ran, upst, dn>>
 \* --- runner layer ---
 RunEnter(s) == /\ ~inc[s] /\ gpc[s] = "inrun" /\ rpc[s] = "none" /\ rpc' = [rpc EXCEPT ![s] = "entered"]
                /\ UNCHANGED <<cfgv, status, gerr, loop, want, twice, nl, by, gpc, pt, role, done, rfail, ran, upst, dn>>
@@ -160,10 +163,27 @@ RunExit(s) == /\ rpc[s] = "entered" /\ role[s] = "none" /\ NextOp(s) = "exit"
               /\ UNCHANGED <<cfgv, status, gerr, loop, want, twice, nl, by, gpc, pt, role, done, ran, upst, dn>>
 \* --- back in the stage goroutine: Run returned, the outcome is published (two stores for an allowed failure) ---
 StageRet(s) == /\ gpc[s] = "inrun" /\ gpc' = [gpc EXCEPT ![s] = "back"]
-               /\ IF inc[s] THEN nl[s] = "ret" /\ rfail' = [rfail EXCEPT ![s] = gerr[1]]   \* Schedule returned LastError
-                            ELSE rpc[s] = "exited" /\ UNCHANGED rfail
+               /\ IF inc[s] THEN nl[s] = "ret" ELSE rpc[s] = "exited"       \* (the nested Schedule returned LastError)
+               /\ UNCHANGED rfail
                /\ UNCHANGED <<cfgv, status, gerr, loop, want, twice, nl, by, rpc, pt, role, done, ran, upst, dn>>
+\* A failure that is not allowed is published in two separate steps, the graph's error and the stage's
+\* Error status (gpc "errset" / "stset" in between): another Schedule call on the same graph may run
+\* between them.
 Publish(s) == /\ gpc[s] = "back"
+              /\ IF rfail[s] /\ status[s] = "R"
+                   THEN IF Allow(s) THEN status' = [status EXCEPT ![s] = "E"] /\ UNCHANGED <<gpc, gerr>>
+                        ELSE IF ErrFirst THEN /\ gerr' = [gerr EXCEPT ![gr[s]] = TRUE] /\ gpc' = [gpc EXCEPT ![s] = "errset"] /\ UNCHANGED status
+                                         ELSE /\ status' = [status EXCEPT ![s] = "E"] /\ gpc' = [gpc EXCEPT ![s] = "stset"] /\ UNCHANGED gerr
+                   ELSE status' = [status EXCEPT ![s] = "D"] /\ gpc' = [gpc EXCEPT ![s] = "fin"] /\ UNCHANGED gerr
+              /\ UNCHANGED <<cfgv, loop, want, twice, nl, by, rpc, pt, role, done, rfail, ran, upst, dn>>
+PublishRest(s) == /\ gpc[s] \in {"errset", "stset"} /\ gpc' = [gpc EXCEPT ![s] = "fin"]
+                  /\ IF gpc[s] = "errset" THEN status' = [status EXCEPT ![s] = "E"] /\ UNCHANGED gerr
+                                          ELSE gerr' = [gerr EXCEPT ![gr[s]] = TRUE] /\ UNCHANGED status
+                  /\ UNCHANGED <<cfgv, loop, want, twice, nl, by, rpc, pt, role, done, rfail, ran, upst, dn>>
+\* both steps at once: what a log of status stores shows of the repaired code (the store of the Error
+\* status is logged; the error was recorded just before it and is read by nobody until then)
+PublishAtomic(s) ==
+              /\ gpc[s] = "back"
               /\ IF rfail[s] /\ status[s] = "R"
                    THEN /\ status' = [status EXCEPT ![s] = "E"]
                         /\ IF Allow(s) THEN UNCHANGED <<gpc, gerr>> ELSE gpc' = [gpc EXCEPT ![s] = "fin"] /\ gerr' = [gerr EXCEPT ![gr[s]] = TRUE]
@@ -181,7 +201,7 @@ DownEnd(c) == /\ dn[c] = "running" /\ dn' = [dn EXCEPT ![c] = "done"]
               /\ UNCHANGED <<cfgv, status, gerr, loop, want, twice, nl, by, gpc, rpc, pt, role, done, rfail, ran, upst>>
 Next == \/ LoopExit
         \/ \E i, s \in Stages : VisitDecide(i, s) \/ VisitCommit(i, s)
-        \/ \E s \in Stages : Visit(s) \/ StageEnter(s) \/ NReturn(s) \/ RunEnter(s) \/ CmdStart(s) \/ CmdEnd(s) \/ RunExit(s) \/ StageRet(s) \/ Publish(s)
+        \/ \E s \in Stages : Visit(s) \/ StageEnter(s) \/ NReturn(s) \/ RunEnter(s) \/ CmdStart(s) \/ CmdEnd(s) \/ RunExit(s) \/ StageRet(s) \/ Publish(s) \/ PublishRest(s)
         \/ \E c \in Ctxs : DownStart(c) \/ DownEnd(c)
 Spec == Init /\ [][Next]_vars /\ WF_vars(Next)
 
